@@ -51,7 +51,7 @@ static void on_fatal(const SimResult *r) {
   const char *cls = r->outcome == SO_DEADLOCK ? "deadlock" : r->outcome == SO_STEPCAP ? "stepcap" : "misuse";
   if (g_verbose) print_log(stdout);
   // a fatal outcome in the reference phase is a symmetric failure (precondition), in the varied phase a violation
-  emit(!strcmp(g_phase, "ref") ? "precondition_failed" : "violation", cls, r->detail, *r, nullptr, nullptr);
+  emit(!strcmp(g_phase, "ref") ? "precondition_failed" : "violation", !strcmp(g_phase, "ref2") ? (std::string(cls) + "_in_second_reference").c_str() : cls, r->detail, *r, nullptr, nullptr);
 }
 
 static BuildOut build_once(const StringSet &ss, const BlocksShape &sh, int threads, SimConfig cfg) {
@@ -69,6 +69,13 @@ static BuildOut build_once(const StringSet &ss, const BlocksShape &sh, int threa
   o.nparts = d->parts.size();
   if (d->parts.size() != d->cut_samples.size() || d->parts.size() != d->starting_indexes.size()) o.structure = "size_mismatch";
   for (size_t i = 0; i < d->parts.size() && o.structure.empty(); i++) if (!d->parts[i]) o.structure = "null_slot_" + std::to_string(i);
+#if defined(__has_feature)
+#if __has_feature(thread_sanitizer)
+  // tsan variant (C11): only the parallel build matters; sequential save/queries add nothing a race
+  // detector could use and would only trip over pure-input defects of the query path.
+  if (o.structure.empty()) { delete d; o.ok = true; return o; }
+#endif
+#endif
   if (o.structure.empty()) {
     std::ostringstream out(std::ios::out | std::ios::binary);
     d->save(out);
@@ -77,12 +84,14 @@ static BuildOut build_once(const StringSet &ss, const BlocksShape &sh, int threa
     size_t n = d->numElements();
     h = fnv1a(h, &n, sizeof n);
     for (size_t i = 1; i <= n; i++) {
-      uint l = 0; uchar *s = d->extract(i, &l);
+      uint l = 0; uchar *s = nullptr;
+      try { s = d->extract(i, &l); } catch (const char *e) { h = fnv1a(h, "THROW", 5); continue; }
       h = fnv1a(h, &l, sizeof l);
       if (s) {
         h = fnv1a(h, s, l);
         std::vector<uchar> pat(s, s + l); pat.push_back(0); pat.push_back(0);
-        unsigned long id = d->locate(pat.data(), l);
+        unsigned long id = 0;
+        try { id = d->locate(pat.data(), l); } catch (const char *e) { id = (unsigned long)-7; }
         h = fnv1a(h, &id, sizeof id);
         delete[] s;
       } else h = fnv1a(h, "NULL", 4);
@@ -139,12 +148,30 @@ static int run_one(const BlocksShape &sh, SimConfig cfg, bool have_cfg, Prng *r)
   cfg.keep_log = true;
   cfg.step_cap = 400000; cfg.fair_after = 200000;
   g_spec = shape_spec(sh) + "," + sched_spec(cfg) + ",blocks=" + std::to_string(blocks);
-  // reference: one worker thread, producer-first, run to completion, no faults
+  // references: one worker thread, run to completion, no faults, under the two extremal schedules
+  // (producer-first and worker-first).  A failure of the first is symmetric (precondition_failed);
+  // the second must agree with the first -- a 1-thread build must not depend on the schedule either.
+  // Which extremal schedule goes first is seeded, so neither is privileged.
+  bool low_first = (mix64(g_run_seed, 0x2ef) & 1) != 0;
   g_phase = "ref";
   printf("{\"begin\":%llu,\"phase\":\"ref\"}\n", (unsigned long long)g_run_index); fflush(stdout);
-  SimConfig rc; rc.strategy = ST_LOWFIRST; rc.keep_log = false; rc.step_cap = 400000; rc.fair_after = 400000;
+  SimConfig rc; rc.strategy = low_first ? ST_LOWFIRST : ST_HIGHFIRST; rc.keep_log = false; rc.step_cap = 400000; rc.fair_after = 400000;
   BuildOut ref = build_once(ss, sh, 1, rc);
   if (!ref.structure.empty()) { emit("precondition_failed", "ref_structure", ref.structure, ref.res, &ref, nullptr); return 0; }
+  g_phase = "ref2";
+  printf("{\"begin\":%llu,\"phase\":\"ref2\"}\n", (unsigned long long)g_run_index); fflush(stdout);
+  rc.strategy = low_first ? ST_HIGHFIRST : ST_LOWFIRST;
+  BuildOut ref2 = build_once(ss, sh, 1, rc);
+#if defined(__has_feature)
+#if __has_feature(thread_sanitizer)
+  ref2.image = ref.image; ref2.qdigest = ref.qdigest;
+#endif
+#endif
+  if (!ref2.structure.empty() || ref2.image != ref.image || ref2.qdigest != ref.qdigest) {
+    std::string d = !ref2.structure.empty() ? ref2.structure : (ref2.image != ref.image ? "images of two 1-thread builds differ" : "answers of two 1-thread builds differ");
+    emit("violation", "one_thread_schedules_disagree", d, ref2.res, &ref, &ref2);
+    return 1;
+  }
   g_phase = "var";
   printf("{\"begin\":%llu,\"phase\":\"var\"}\n", (unsigned long long)g_run_index); fflush(stdout);
   BuildOut var = build_once(ss, sh, sh.threads, cfg);
@@ -170,6 +197,7 @@ static int run_one(const BlocksShape &sh, SimConfig cfg, bool have_cfg, Prng *r)
 int main(int argc, char **argv) {
   setvbuf(stdout, nullptr, _IOLBF, 0);
   sim_set_fatal_cb(on_fatal);
+  install_death_cb(&g_spec);
   // the library prints notices on stdout for unsupported calls; none are made here
   if (argc < 2) { fprintf(stderr, "usage: blocks_sim run <base> <first> <count> <catalogue> | replay <spec> | one <base> <index> <catalogue>\n"); return 2; }
   std::string mode = argv[1];
@@ -177,7 +205,7 @@ int main(int argc, char **argv) {
     uint64_t base = strtoull(argv[2], 0, 0), first = strtoull(argv[3], 0, 0), count = strtoull(argv[4], 0, 0);
     int cat = atoi(argv[5]);
     for (uint64_t i = first; i < first + count; i++) {
-      BlocksShape sh; SimConfig cfg; g_run_index = i;
+      BlocksShape sh; SimConfig cfg; g_run_index = i; g_death_run = i;
       derive(base, i, cat, sh, cfg);
       Prng r; r.seed(mix64(g_run_seed, 0x5c4ed));
       run_one(sh, cfg, false, &r);
@@ -188,7 +216,7 @@ int main(int argc, char **argv) {
     BlocksShape sh; SimConfig cfg; std::vector<uint32_t> tb;
     g_verbose = true;
     if (mode == "one") {
-      g_run_index = strtoull(argv[3], 0, 0);
+      g_run_index = strtoull(argv[3], 0, 0); g_death_run = g_run_index;
       derive(strtoull(argv[2], 0, 0), g_run_index, atoi(argv[4]), sh, cfg);
       Prng r; r.seed(mix64(g_run_seed, 0x5c4ed));
       return run_one(sh, cfg, false, &r);
